@@ -140,6 +140,18 @@ def mode_semantics(ctx, rep, clause):
                     pt.func.attr.startswith('has_') and isinstance(pt.func.value, ast.Name)
                 ob(rep, 'SIB-mode', f.fq, f'{where}: the conflict test asks the annotation about a site',
                    asks, t, f'conflict test is `{t}`', f.loc(parent), clause)
+                # ... the *input* annotation, not the copy that is being edited (rules applied earlier in the same
+                # call would otherwise count as pre-existing modifications)
+                edited_objs = {norm_stmt(c.func.value) for blk in (ch.get('overwrite', []), ch.get('append', []),
+                                                                   parent.orelse)
+                               for c in [_adder_call(blk)] if c is not None}
+                asked_obj = norm_stmt(pt.func.value) if asks else None
+                if fname == 'apply_static_mods':
+                    ob(rep, 'SIB-mode', f.fq, f'{where}: the conflict test looks at the input, not at the copy being edited',
+                       asked_obj is not None and asked_obj not in edited_objs, f'asks `{asked_obj}`, edits {sorted(edited_objs)}',
+                       f'"already modified?" is asked of `{asked_obj}`, the object the rules are written to: a residue '
+                       f'matched by two rules is unmodified in the input but counts as modified for the second rule, so '
+                       f'skip drops it and overwrite replaces the first rule\'s modification', f.loc(parent), clause)
                 # ... and about the very site the chain edits: has_<site>... guards add_<site>...
                 asked = _site_of(pt.func.attr) if asks else None
                 edited = {_site_of(c.func.attr) for blk in (ch.get('overwrite', []), ch.get('append', []), parent.orelse)
@@ -180,6 +192,39 @@ def site_computation(ctx, rep, clause):
        f'terminal index tests are {tests}', f.loc(), clause)
 
 
+def site_index_offset(ctx, rep, clause):
+    """get_regex_match_indices: on every path the yielded index is <match start> + offset (+1 for a consuming match):
+    the builders pass offset=-1 to turn "one past the matched residue" into the residue index, for consuming and for
+    zero-width (look-around) targets alike"""
+    from ..poly import PathEval, fmt
+    program = ctx.program
+    f = program.func('peptacular.util:get_regex_match_indices')
+    loops = [x for x in walk_own(f.node) if isinstance(x, ast.For) and 'finditer(' in norm_stmt(x.iter)]
+    if len(loops) != 1:
+        raise AnalysisError('get_regex_match_indices: the loop over the matches was not found')
+    fn = ast.FunctionDef(name='_body', args=f.node.args, body=list(loops[0].body), decorator_list=[], returns=None,
+                         type_comment=None)
+    ast.fix_missing_locations(fn)
+    paths = PathEval(fn, {}).run()
+    if not paths:
+        raise AnalysisError('get_regex_match_indices: no yielded value found')
+    for cond, p in paths:
+        coeff = p.get((('offset', 1),), 0)
+        consts = p.get((), 0)
+        others = [m for m in p if m not in ((('offset', 1),), ())]
+        ok = coeff == 1 and consts in (0, 1) and len(others) == 1 and p[others[0]] == 1
+        ctext = ' and '.join(f'{"" if v else "not "}({t})' for t, v in cond) or 'always'
+        ob(rep, 'SIB-site', f.fq, f'the index yielded under [{_anon_names(ctext)}] is <match start> + offset (+1)', ok,
+           fmt(p), f'on the path [{ctext}] the yielded index is {fmt(p)}: `offset` is not applied (exactly once) there, so '
+           f'the builders (offset=-1) place modifications for such targets one residue off', f.loc(loops[0]), clause)
+    rep.floor('SIB-site', 'yield paths of get_regex_match_indices', len(paths), 2)
+
+
+def _anon_names(t: str) -> str:
+    import re as _re
+    return _re.sub(r'\b[a-z_][a-z0-9_]*(?=\.)', '_', t)
+
+
 def counter_sibling(ctx, rep, clause):
     """the budget max_mods is added to a starting count; the recursion stops on a count: both must count the same
     thing (modified residues), otherwise residues carrying several modifications inflate the budget"""
@@ -202,6 +247,37 @@ def counter_sibling(ctx, rep, clause):
     ob(rep, 'SIB-counter', b.fq, 'the recursion is started with max_mods + starting count',
        bool(_re.search(r'max_mods \+ \w+\.count_\w+\(\)|\w+\.count_\w+\(\) \+ max_mods', txt)), 'budget = max_mods + baseline',
        'the recursion budget is not max_mods plus the starting count', b.loc(), clause)
+
+
+def site_map_accumulates(ctx, rep, clause):
+    """_variable_mods_builder files the offered modification groups per site; a site matched by two rules is offered
+    the groups of both, so the per-site store has to accumulate (setdefault/append, extend, or get-and-add)"""
+    program = ctx.program
+    f = program.func(f'{MB}:_variable_mods_builder')
+    c = Canon(f.node)
+    site_loops = [x for x in walk_own(f.node) if isinstance(x, ast.For) and
+                  c.text(x.iter).startswith('get_regex_match_indices(')]
+    if not site_loops:
+        raise AnalysisError('_variable_mods_builder: the loop over the matched sites was not found')
+    k = 0
+    for lp in site_loops:
+        for x in ast.walk(lp):
+            if isinstance(x, ast.Assign) and isinstance(x.targets[0], ast.Subscript):
+                k += 1
+                d = norm_stmt(x.targets[0].value)
+                acc = any(isinstance(y, ast.Call) and isinstance(y.func, ast.Attribute) and y.func.attr == 'get' and
+                          norm_stmt(y.func.value) == d for y in ast.walk(x.value))
+                ob(rep, 'ACC', f.fq, 'the per-site store keeps the groups offered by earlier rules', acc,
+                   'get-and-add', f'`{c.text(x)[:80]}` replaces what an earlier rule filed for the same site: with two '
+                   f'rules matching one residue only the last rule\'s groups are offered and forms are missing',
+                   f.loc(x), clause)
+            if isinstance(x, ast.Call) and isinstance(x.func, ast.Attribute) and x.func.attr in ('append', 'extend') and \
+                    isinstance(x.func.value, ast.Call) and isinstance(x.func.value.func, ast.Attribute) and \
+                    x.func.value.func.attr == 'setdefault':
+                k += 1
+                rep.ob('ACC', f'{f.fq} :: per-site store accumulates via setdefault', f.loc(x), True,
+                       'groups of every matching rule are kept', True, clause)
+    rep.floor('ACC', 'per-site stores in _variable_mods_builder', k, 1)
 
 
 def single_expansion(ctx, rep, clause):
@@ -266,8 +342,10 @@ def check(ctx, rep):
     an, program = ctx.analyzer, ctx.program
     mode_semantics(ctx, rep, 'C13a')
     site_computation(ctx, rep, 'C13b')
+    site_index_offset(ctx, rep, 'C13b')
     counter_sibling(ctx, rep, 'C13a')
     single_expansion(ctx, rep, 'C13a')
+    site_map_accumulates(ctx, rep, 'C13a')
     for fname in ('apply_static_mods', 'apply_variable_mods', '_variable_mods_builder', '_apply_variable_mods_rec'):
         fq = f'{MB}:{fname}'
         s = an.summaries.get((fq, ()))
